@@ -1,7 +1,7 @@
 SPECIFICATION Spec
 CONSTANTS
   Names = {"a", "b"}
-  Classes = {"ascii", "binary", "empty", "long"}
+  Classes = {"ascii", "binary", "empty", "long", "huge", "issued"}
   KeyLens = {16, 24, 32}
 INVARIANT Emit
 INVARIANT OnlyAuthentic
